@@ -60,20 +60,25 @@ AGAIN:
 }
 
 func (c *ConnWithContext) Write(b []byte) (int, error) {
+	// A write which times out can have written a part of the data already
+	// (a stream connection the peer of which reads slowly): the next attempt
+	// continues after that part, it does not start over.
+	written := 0
 AGAIN:
 	select {
 	case <-c.ctx.Done():
-		return 0, c.ctx.Err()
+		return written, c.ctx.Err()
 	default:
 		// continue
 	}
 
 	err := c.conn.SetWriteDeadline(time.Now().Add(c.timeout))
 	if err != nil {
-		return 0, err
+		return written, err
 	}
 
-	n, err := c.conn.Write(b)
+	n, err := c.conn.Write(b[written:])
+	written += n
 	if err != nil {
 		switch e := err.(type) {
 		case net.Error:
@@ -84,7 +89,7 @@ AGAIN:
 			goto AGAIN
 		}
 	}
-	return n, err
+	return written, err
 }
 
 func (c *ConnWithContext) Close() error {
